@@ -40,6 +40,14 @@ func (c *Clause) label() string {
 	return s
 }
 
+// clabel names one conjunct of the clause.
+func (c *Clause) clabel(conj string) string {
+	if c.Label != "" {
+		return c.Label + " :: " + conj
+	}
+	return conj
+}
+
 func (c *Clause) tagsOr(def []string) []string {
 	if len(c.Tags) > 0 {
 		return c.Tags
@@ -55,6 +63,7 @@ type Contract struct {
 	Ensures  []*Clause
 	Loops    []*Clause
 	Trusted  bool
+	Touches  []*Clause // objects whose fields (and nothing else of their struct types) the function may change
 	Modifies []string
 	HasMods  bool
 	NoInline bool
@@ -78,7 +87,7 @@ type ContractSet struct {
 }
 
 var blockRe = regexp.MustCompile(`(?s)/\*@(.*?)@\*/`)
-var clauseHead = regexp.MustCompile(`^(requires|ensures|tags|safety|loop|modifies|trusted|noinline|inline)\b`)
+var clauseHead = regexp.MustCompile(`^(requires|ensures|tags|safety|loop|modifies|touches|trusted|noinline|inline)\b`)
 
 // rewriteImp turns `a ==> b` (lowest precedence, right associative) into imp(a, b), recursively inside brackets.
 func rewriteImp(s string) string {
@@ -282,6 +291,20 @@ func (cs *ContractSet) parseBlock(file string, line0 int, body string) {
 			c.NoInline = true
 		case "inline":
 			c.Inline = true
+		case "touches":
+			for _, part := range splitTop(rest, ",") {
+				part = strings.TrimSpace(part)
+				if part == "" || part == "nothing" {
+					c.Touches = append(c.Touches, &Clause{Kind: "touches", Src: "nothing", File: file, Line: it.line})
+					continue
+				}
+				ex, err := parseSpecExpr(part)
+				if err != nil {
+					cs.errf(file, it.line, "%s: %v in %q", key, err, part)
+					continue
+				}
+				c.Touches = append(c.Touches, &Clause{Kind: "touches", Src: part, Expr: ex, File: file, Line: it.line})
+			}
 		case "modifies":
 			c.HasMods = true
 			c.Modifies = append(c.Modifies, strings.Fields(strings.ReplaceAll(rest, ",", " "))...)
@@ -410,6 +433,7 @@ type Env struct {
 	pkg   *types.Package
 	bound map[string]bool
 	depth int
+	water string // allocation watermark fresh() is relative to ("pre" at function entry)
 }
 
 func (env *Env) with(name string, tv TV) *Env {
@@ -438,6 +462,55 @@ func (e *Engine) evalBool(env *Env, x ast.Expr) string {
 	}
 	e.specErr("expression is not boolean: %s", exprString(x))
 	return "true"
+}
+
+// conjuncts splits a boolean specification expression into its top-level conjuncts, looking through
+// parentheses and through calls of specification functions, so that every conjunct becomes an obligation
+// of its own with a readable label.
+func (e *Engine) conjuncts(env *Env, x ast.Expr, prefix string) (terms []string, labels []string) {
+	switch n := x.(type) {
+	case *ast.ParenExpr:
+		return e.conjuncts(env, n.X, prefix)
+	case *ast.BinaryExpr:
+		if n.Op == token.LAND {
+			t1, l1 := e.conjuncts(env, n.X, prefix)
+			t2, l2 := e.conjuncts(env, n.Y, prefix)
+			return append(t1, t2...), append(l1, l2...)
+		}
+	case *ast.CallExpr:
+		if id, ok := n.Fun.(*ast.Ident); ok {
+			if id.Name == "imp" && len(n.Args) == 2 {
+				// a ==> (b && c) splits into a ==> b, a ==> c
+				g := e.evalBool(env, n.Args[0])
+				ts, ls := e.conjuncts(env, n.Args[1], prefix)
+				if len(ts) > 1 {
+					gs := exprString(n.Args[0])
+					for i := range ts {
+						ts[i] = imp(g, ts[i])
+						ls[i] = gs + " ==> " + ls[i]
+					}
+					return ts, ls
+				}
+			}
+			if sf, ok := e.w.specFunc(id.Name); ok && len(sf.Params) == len(n.Args) && env.depth < 20 {
+				inner := *env
+				inner.vars = map[string]TV{}
+				inner.cells = nil
+				inner.depth = env.depth + 1
+				for i, p := range sf.Params {
+					v, t := e.eval(env, n.Args[i])
+					inner.vars[p] = TV{v, t}
+				}
+				return e.conjuncts(&inner, sf.Body, prefix+id.Name+": ")
+			}
+		}
+	}
+	s := strings.Join(strings.Fields(exprString(x)), " ")
+	s = strings.ReplaceAll(s, "imp(", "(")
+	if len(s) > 90 {
+		s = s[:90]
+	}
+	return []string{e.evalBool(env, x)}, []string{prefix + s}
 }
 
 func exprString(x ast.Expr) string {
@@ -831,7 +904,11 @@ func (e *Engine) evalCall(env *Env, n *ast.CallExpr) (Val, types.Type) {
 			return Sc{"false"}, tBool
 		}
 		v, _ := arg(0)
-		return Sc{fmt.Sprintf("(> %s pre)", sliceOrScalar(e, v))}, tBool
+		wm := env.water
+		if wm == "" {
+			wm = "pre"
+		}
+		return Sc{fmt.Sprintf("(> %s %s)", sliceOrScalar(e, v), wm)}, tBool
 	case "preexisting":
 		if !need(1) {
 			return Sc{"false"}, tBool
@@ -893,6 +970,25 @@ func (e *Engine) evalCall(env *Env, n *ast.CallExpr) (Val, types.Type) {
 		}
 		e.useCRC = true
 		return Sc{fmt.Sprintf("(crcrange %s %s %s)", argS(0), argS(1), argS(2))}, types.Typ[types.Uint32]
+	case "le16at", "le32at", "le64at": // little-endian word at offset off of byte slice s
+		if !need(2) {
+			return Sc{"0"}, tInt
+		}
+		v, _ := arg(0)
+		sv, ok := v.(SliceV)
+		if !ok {
+			e.specErr("%s: first argument must be a byte slice", fname)
+			return Sc{"0"}, tInt
+		}
+		off := argS(1)
+		k := map[string]int{"le16at": 2, "le32at": 4, "le64at": 8}[fname]
+		arr := e.comp(env.heap, "E.uint8", "Int", true)
+		var bs []string
+		for i := 0; i < k; i++ {
+			bs = append(bs, fmt.Sprintf("(select (select %s %s) (+ %s %s %d))", arr, sv.B, sv.O, off, i))
+		}
+		e.useLE = true
+		return Sc{fmt.Sprintf("(le%d %s)", k*8, strings.Join(bs, " "))}, tUint64
 	case "wrap64":
 		if !need(1) {
 			return Sc{"0"}, tInt
@@ -1040,12 +1136,11 @@ func (f *frame) bindLocals(env *Env, at *ssa.BasicBlock, phis map[*ssa.Phi]Val) 
 			}
 		}
 	}
+	env.oldV = map[string]TV{}
+	for i, p := range f.fn.Params {
+		env.oldV[p.Name()] = TV{f.args[i], p.Type()}
+	}
 	for name, c := range best {
-		if _, isParam := env.vars[name]; isParam {
-			if !c.addr {
-				continue
-			}
-		}
 		if c.addr {
 			env.vars[name] = TV{f.get(c.v), c.v.Type()}
 			env.cells[name] = true
